@@ -60,7 +60,7 @@ class Ctx:
     def flags(self, flavour):
         b = os.path.join(BUILD, flavour)
         inc = ['-I%s/parsec/include' % b, '-I%s' % b, '-I%s/parsec/include' % REPO, '-I%s' % REPO,
-               '-I%s/engine/cosched' % VERIF, '-I%s/engine/seqx' % VERIF, '-I%s/vtsan' % BUILD]
+               '-I%s/engine/cosched' % VERIF, '-I%s/engine/seqx' % VERIF, '-I%s/engine/vranks' % VERIF, '-I%s/engine/rt' % VERIF, '-I%s/vtsan' % BUILD]
         defs = ['-DBUILDING_PARSEC', '-D_GNU_SOURCE', '-DPARSEC_VERIF_HOOKS']
         cf = ['-std=gnu11', '-O1', '-g', '-mcx16', '-Wall', '-Wno-unused-function', '-Wno-unused-variable', '-Wno-unused-parameter']
         ld = ['-L%s/parsec' % b, '-Wl,-rpath,%s/parsec' % b, '-lparsec', '-lpthread', '-lm', '-ldl', '-lhwloc']
@@ -84,7 +84,12 @@ class Ctx:
             allsrc.append((os.path.join(VERIF, 'engine/cosched/cosched.c'), False))
             if memops:
                 allsrc.append((os.path.join(VERIF, 'engine/cosched/cs_memops.c'), False))
-        procs = []
+        # object cache keyed by the hash of the PREPROCESSED translation unit + flags: a change anywhere in
+        # /repo's headers, the generated config, the harness or the engine changes the key, so nothing stale is reused
+        import hashlib, shutil
+        cdir = os.path.join(OUT, 'cache')
+        os.makedirs(cdir, exist_ok=True)
+        jobs = []
         for i, (s, ins) in enumerate(allsrc):
             o = exe + '.%d.o' % i
             objs.append(o)
@@ -92,12 +97,30 @@ class Ctx:
             if not ins:
                 e['VCC_NOINSTR'] = '1'
             extra = ['-fno-builtin'] if s.endswith('cs_memops.c') else []
-            procs.append((s, subprocess.Popen([cc] + cf + extra + list(cflags) + defs + inc + ['-c', s, '-o', o], env=e, stdout=subprocess.PIPE, stderr=subprocess.STDOUT, text=True)))
-        for s, p in procs:
+            base = [cc] + cf + extra + list(cflags) + defs + inc
+            jobs.append((s, o, e, base, subprocess.Popen(base + ['-E', s], env=e, stdout=subprocess.PIPE, stderr=subprocess.PIPE)))
+        procs = []
+        for s, o, e, base, pp in jobs:
+            out, err = pp.communicate()
+            if pp.returncode != 0:
+                sys.stderr.write(err.decode(errors='replace'))
+                raise Broken('preprocessing of %s failed' % s)
+            h = hashlib.sha256(out + b'\0' + ' '.join(base).encode() + b'\0' + e.get('VCC_NOINSTR', '0').encode() + e.get('VCC_REAL', '').encode()).hexdigest()
+            co = os.path.join(cdir, h + '.o')
+            if os.path.exists(co):
+                shutil.copyfile(co, o)
+                continue
+            procs.append((s, o, co, subprocess.Popen(base + ['-c', s, '-o', o], env=e, stdout=subprocess.PIPE, stderr=subprocess.STDOUT, text=True)))
+        for s, o, co, p in procs:
             out, _ = p.communicate()
             if p.returncode != 0:
                 sys.stderr.write(out)
                 raise Broken('compilation of %s failed' % s)
+            try:
+                tmp = co + '.%d.tmp' % os.getpid()
+                shutil.copyfile(o, tmp); os.replace(tmp, co)
+            except OSError:
+                pass
         r = sh([cc] + objs + ['-o', exe] + (ld if link_parsec else ['-lpthread', '-lm']) + list(ldflags), env=env, capture_output=True, text=True)
         if r.returncode != 0:
             sys.stderr.write(r.stdout + r.stderr)
